@@ -121,6 +121,48 @@ pub fn gen(tier: &str, seed: u64) -> Vec<String> {
             }
         }
     }
+    // (1c) chords v2 (outside the kanata-level model): the key-output table has, per layer, the
+    // outputs of every chord a key takes part in and that is not disabled on that layer; a repeat of
+    // a participant while the chord's output is down must be forwarded as a repeat of that output.
+    // `;; repeat-expect <participant> <output>` lines tell the model-free oracle what to require.
+    {
+        let (j, k, l, s_) = (code("j"), code("k"), code("l"), code("s"));
+        let (x, y, z) = (code("x"), code("y"), code("z"));
+        for (dis1, dis2, dis3) in [("(game)", "()", "()"), ("()", "(game)", "()"), ("(game)", "()", "(game)"), ("()", "()", "()"), ("(base)", "()", "()")] {
+            let mut cfg = format!(
+                "(defcfg concurrent-tap-hold yes)\n(defsrc j k l s d)\n(deflayer base j k l (layer-switch game) (layer-switch base))\n(deflayer game j k l (layer-switch game) (layer-switch base))\n(defchordsv2\n (j k) x 50 all-released {dis1}\n (k l) y 50 all-released {dis2}\n (j l) z 50 all-released {dis3})\n"
+            );
+            for (p, o) in [(j, x), (k, x), (k, y), (l, y), (j, z), (l, z)] {
+                cfg.push_str(&format!(";; repeat-expect {p} {o}\n"));
+            }
+            for to_game in [false, true] {
+                for (a, b) in [(j, k), (k, j), (k, l), (l, k), (j, l), (l, j)] {
+                    let mut h = vec![];
+                    if to_game {
+                        h.push(KEv::L(HEv::Press(0, s_)));
+                        h.push(KEv::L(HEv::Tick(5)));
+                        h.push(KEv::L(HEv::Release(0, s_)));
+                        h.push(KEv::L(HEv::Tick(5)));
+                    }
+                    h.push(KEv::L(HEv::Press(0, a)));
+                    h.push(KEv::L(HEv::Tick(10)));
+                    h.push(KEv::L(HEv::Press(0, b)));
+                    h.push(KEv::L(HEv::Tick(100)));
+                    h.push(KEv::Rep(b));
+                    h.push(KEv::L(HEv::Tick(30)));
+                    h.push(KEv::Rep(a));
+                    h.push(KEv::L(HEv::Tick(30)));
+                    h.push(KEv::Rep(b));
+                    h.push(KEv::L(HEv::Tick(30)));
+                    h.push(KEv::L(HEv::Release(0, a)));
+                    h.push(KEv::L(HEv::Tick(5)));
+                    h.push(KEv::L(HEv::Release(0, b)));
+                    h.push(KEv::L(HEv::Tick(200)));
+                    lines.push(mk_kline("KAN", false, &cfg, &h));
+                }
+            }
+        }
+    }
     // (2) whole grammar incl. layers, tap-hold, tap-dance, one-shot, fork, switch, chords, unmod
     let n2 = if thorough { 25000 } else { 2500 };
     for i in 0..n2 {
